@@ -7,7 +7,8 @@ open Pyemv Pyemv.Gen
 
 theorem cvv_generate_cvc3 (k t a u : Bytes) : Gen.cvv.generate_cvc3 k t a u = generateCvc3 k t a u := by
   unfold Gen.cvv.generate_cvc3 generateCvc3
-  simp only [tools_ecb, mac_mac3, bind, Except.bind, pure, Except.pure]
+  try simp only [bind_pure]      -- `do let v ← e; pure v` is `e` (single-exit rewrites)
+  simp only [tools_ecb, mac_mac3, bind, Except.bind, pure, Except.pure, except_match_eta]
   repeat (first | rfl | split)
   all_goals first | (simp_all; done) | slice_forms
 
